@@ -11,7 +11,7 @@
       exchange:  respChan := make(chan *Msg, 1)
                  qid, err := c.addQueueC(respChan) ; if err → return err
                  defer c.deleteQueueC(qid)
-                 err = c.write(m, qid)            ; if err → return err
+                 err = c.write(ctx, m, qid)       ; if err → return err   (a failed write may close the connection)
                  select { <-ctx.Done → err | <-c.ctx.Done → err
                         | r := <-respChan → r.Header.ID = BigEndian.Uint16(m); return r }
       readLoop:  r := read ; ch := c.getQueueC(r.Header.ID)
@@ -282,12 +282,17 @@ def firstBad (cfg : Cfg) : List Ev → Option Ev
   case : `tcp=<0|1> mc=<n> pre=<n> ops=<op>,<op>,…`
      s<E>:<cid>            start exchange E with caller ID cid, wait until the server saw its query
      b<E>:<cid>+<E>:<cid>…  start several exchanges concurrently, wait until the server saw all queries
+     h<E>:<cid>+<E>:<cid>…  all are handed a connection by the pool first, then enter `exchange` one by one,
+                            no retry (needs the harness hook; without it the harness runs a burst)
      r<E>:<p>              server replies to E's current (connection, wire id) with payload p
      u<c>:<id>:<p>         server sends a reply with wire id `id`, payload p on connection c
      c<E>                  cancel E's context
      x<c>                  server closes connection c
   out  : `pre=<summary> log=<group>|<group>|…`, one group of `,`-separated tokens per op:
-     q<E>:<c>:<id>  i<c>:<id>:<p> | i-  m<E>:<ID>:<p>  e<E>:cancel|err  k<c> (client closed c)  x<c> | x-  t<E>
+     q<E>:<c>:<id>  i<c>:<id>:<p> | i-  m<E>:<ID>:<p>  e<E>:cancel|err  x<c> | x-
+     and one last group: k<c> for every exhausted connection the client closed (end of life)
+     harness only (the model never emits them): t<E> timeout, T script abandoned, z<E> caller's buffer modified,
+     y<E> query altered beyond the ID
   The connection an exchange lands on, the order of concurrent starters and the retry
   decisions are the connection pool's / scheduler's business: the model follows the choices
   visible in the implementation's log (oracle) and computes everything else itself.
@@ -310,6 +315,7 @@ def natsOf (cs : List Char) : Option (List Nat) :=
 inductive Op where
   | start (e cid : Nat)
   | burst (es : List (Nat × Nat))
+  | hold (es : List (Nat × Nat))
   | reply (e p : Nat)
   | raw (c id p : Nat)
   | cancel (e : Nat)
@@ -322,6 +328,10 @@ def opOfChars : List Char → Option Op
       let parts ← (splitC '+' r).mapM natsOf
       let es ← parts.mapM fun | [e, cid] => some (e, cid) | _ => none
       pure (.burst es)
+  | 'h' :: r => do
+      let parts ← (splitC '+' r).mapM natsOf
+      let es ← parts.mapM fun | [e, cid] => some (e, cid) | _ => none
+      pure (.hold es)
   | 'r' :: r => match natsOf r with | some [e, p] => some (.reply e p) | _ => none
   | 'u' :: r => match natsOf r with | some [c, id, p] => some (.raw c id p) | _ => none
   | 'c' :: r => match natsOf r with | some [e] => some (.cancel e) | _ => none
@@ -339,11 +349,20 @@ inductive Tok where
   | killed (c : Nat)
   | nokill
   | timeout (e : Nat)
+  /-- harness only: the rest of the script was abandoned after a timeout -/
+  | abort
+  /-- harness only: the caller's query buffer of `e` was modified -/
+  | mutated (e : Nat)
+  /-- harness only: the query of `e` seen by the server differs from the caller's beyond the ID -/
+  | corrupt (e : Nat)
   deriving DecidableEq, Repr
 
 def tokOfChars : List Char → Option Tok
   | ['i', '-'] => some .noinj
   | ['x', '-'] => some .nokill
+  | ['T'] => some .abort
+  | 'z' :: r => (natOfChars r).map .mutated
+  | 'y' :: r => (natOfChars r).map .corrupt
   | 'q' :: r => match natsOf r with | some [e, c, id] => some (.q e c id) | _ => none
   | 'i' :: r => match natsOf r with | some [c, id, p] => some (.inj c id p) | _ => none
   | 'm' :: r => match natsOf r with | some [e, mid, p] => some (.msg e mid p) | _ => none
@@ -368,6 +387,9 @@ def strOfTok : Tok → String
   | .killed c => s!"x{c}"
   | .nokill => "x-"
   | .timeout e => s!"t{e}"
+  | .abort => "T"
+  | .mutated e => s!"z{e}"
+  | .corrupt e => s!"y{e}"
 
 def groupOfChars (cs : List Char) : Option (List Tok) :=
   if cs = ['-'] ∨ cs = [] then some [] else (splitC ',' cs).mapM tokOfChars
@@ -444,10 +466,6 @@ def defaultPick (r : RunSt) : Nat :=
 def findQ (g : List Tok) (e : Nat) : Option (Nat × Nat) :=
   g.findSome? fun | .q e' c id => if e' = e then some (c, id) else none | _ => none
 
-/-- `closeWithErr(EoL)` by `deleteQueueC` is visible to the harness as the client closing c -/
-def closedNow (before after : State) (c : Nat) : Bool :=
-  !(before.conns c).closed && (after.conns c).closed
-
 /-- one attempt of `e` on connection `c`: Reserve (as the pool does for busy and new connections),
     addQueueC, write. Returns the tokens. -/
 def doStart (cfg : Cfg) (r : RunSt) (known : List Nat) (e c : Nat) : RunSt × List Tok :=
@@ -466,18 +484,19 @@ def drain (cfg : Cfg) (r : RunSt) (known : List Nat) : RunSt × List Tok :=
   known.foldl (fun (acc : RunSt × List Tok) e =>
     let (r, toks) := acc
     match r.s.pcs e with
-    | .waiting c _ ch =>
+    | .waiting _ _ ch =>
       match r.s.chans ch with
       | .full p _ =>
         let s1 := step cfg r.s (.take e)
         let s2 := step cfg s1 (.delQ e)
-        let ks := if closedNow s1 s2 c then [Tok.closed c] else []
-        ({ r with s := s2 }, toks ++ [.msg e (cfg.cid e) p] ++ ks)
+        ({ r with s := s2 }, toks ++ [.msg e (cfg.cid e) p])
       | .empty => (r, toks)
     | _ => (r, toks)) (r, [])
 
 def inject (cfg : Cfg) (r : RunSt) (known : List Nat) (c id p : Nat) : RunSt × List Tok :=
-  if c < r.nconns && !(r.s.conns c).closed && !r.killed.contains c then
+  -- (the client closes connections asynchronously; a connection it closed has no exchange left,
+  --  so whether it is closed is neither consulted by the harness nor here)
+  if c < r.nconns && !r.killed.contains c then
     let r := { r with s := step cfg r.s (.srvReply c id p) }
     let (r, toks) := drain cfg r known
     (r, .inj c id p :: toks)
@@ -504,27 +523,34 @@ def startGroup (cfg : Cfg) (r : RunSt) (known : List Nat) (es : List Nat) (g : L
       let (r, t) := doStart cfg r known e (defaultPick r)
       (r, toks ++ t)) (r, toks)
 
+/-- `h`: everybody was handed the connection the pool offers now; those the log shows failing
+    found it exhausted: `addQueueC` → end of life → error (no retry through the hook) -/
+def holdGroup (cfg : Cfg) (r : RunSt) (known : List Nat) (es : List Nat) (g : List Tok) : RunSt × List Tok :=
+  let c0 := defaultPick r
+  let failing := es.filter fun e => g.contains (.err e false) && (findQ g e).isNone
+  let others := es.filter fun e => !failing.contains e
+  let (r, qs) := startGroup cfg r known others g
+  let (r, errs) := failing.foldl (fun (acc : RunSt × List Tok) e =>
+      let (r, toks) := acc
+      let s1 := step cfg r.s (.addQ e c0)
+      match s1.pcs e with
+      | .idle => ({ r with s := step cfg s1 (.giveUp e) }, toks ++ [.err e false])
+      | _ =>
+        let s2 := step cfg s1 (.write e true false)
+        match s2.pcs e with
+        | .waiting c' q _ => ({ r with s := s2 }, toks ++ [.q e c' q])
+        | _ => ({ r with s := s2 }, toks)) (r, [])
+  (r, errs ++ qs)
+
 def qKey : Tok → Nat × Nat
   | .q _ c id => (c, id)
   | _ => (0, 0)
 
-/-- pool closing idle connections (its own policy): follow the log when the connection is idle -/
-def poolCloses (cfg : Cfg) (r : RunSt) (known : List Nat) (g : List Tok) (already : List Tok) : RunSt × List Tok :=
-  g.foldl (fun (acc : RunSt × List Tok) t =>
-    let (r, toks) := acc
-    match t with
-    | .closed c =>
-      if c < r.nconns && !(r.s.conns c).closed && !r.killed.contains c && !(known.any (openOn r.s c))
-          && !(already.contains t) && !(toks.contains t) then
-        ({ r with s := step cfg r.s (.close c) }, toks ++ [t])
-      else (r, toks)
-    | _ => (r, toks)) (r, [])
-
 def runOp (cfg : Cfg) (r : RunSt) (known : List Nat) (op : Op) (g : List Tok) : RunSt × List Tok :=
-  let (r, toks) : RunSt × List Tok :=
-    match op with
+  match op with
     | .start e _ => startGroup cfg r known [e] g
     | .burst es => startGroup cfg r known (es.map (·.1)) g
+    | .hold es => holdGroup cfg r known (es.map (·.1)) g
     | .reply e p =>
       match curAssign e r.s.hist with
       | some (c, id) => inject cfg r known c id p
@@ -532,14 +558,14 @@ def runOp (cfg : Cfg) (r : RunSt) (known : List Nat) (op : Op) (g : List Tok) : 
     | .raw c id p => inject cfg r known c id p
     | .cancel e =>
       match r.s.pcs e with
-      | .waiting c _ _ =>
+      | .waiting _ _ _ =>
         let s1 := step cfg r.s (.cancel e)
         let s2 := step cfg s1 (.delQ e)
         let s3 := step cfg s2 (.giveUp e)
-        ({ r with s := s3 }, [.err e true] ++ (if closedNow s1 s2 c then [Tok.closed c] else []))
+        ({ r with s := s3 }, [.err e true])
       | _ => (r, [])
     | .kill c =>
-      if c < r.nconns && !(r.s.conns c).closed && !r.killed.contains c then
+      if c < r.nconns && !r.killed.contains c then
         let r := { r with s := step cfg r.s (.close c), killed := c :: r.killed }
         let victims := known.filter (isWaitingOn r.s c)
         -- every victim leaves through `<-c.ctx.Done()` and runs its deferred delete
@@ -557,12 +583,11 @@ def runOp (cfg : Cfg) (r : RunSt) (known : List Nat) (op : Op) (g : List Tok) : 
         let (r, qs) := startGroup cfg r known retry g
         (r, [.killed c] ++ quit.map (fun e => Tok.err e false) ++ qs)
       else (r, [.nokill])
-  let (r, ks) := poolCloses cfg r known g toks
-  (r, toks ++ ks)
 
 def opExchanges : Op → List (Nat × Nat)
   | .start e cid => [(e, cid)]
   | .burst es => es
+  | .hold es => es
   | _ => []
 
 def lookupNat (l : List (Nat × Nat)) (e : Nat) : Nat :=
@@ -570,8 +595,14 @@ def lookupNat (l : List (Nat × Nat)) (e : Nat) : Nat :=
   | some (_, v) => v
   | none => 0
 
+/-- last group: the exhausted connections the client has closed (end of life) -/
+def endGroup (r : RunSt) : List Tok :=
+  (List.range r.nconns).filterMap fun c =>
+    let k := r.s.conns c
+    if k.nextQid > 65535 && k.closed && !r.killed.contains c then some (.closed c) else none
+
 def runOps (cfg : Cfg) (known : List Nat) : RunSt → List Op → List (List Tok) → List (List Tok)
-  | _, [], _ => []
+  | r, [], _ => [endGroup r]
   | r, op :: ops, gs =>
     let (r', toks) := runOp cfg r known op (gs.headD [])
     toks :: runOps cfg known r' ops gs.tail
@@ -595,8 +626,6 @@ def strOfEv : Ev → String
 
 def kvChars (toks : List String) (key : String) : Option (List Char) := (kvGet toks key).map String.toList
 
-/-- the harness puts a `!` in front of its output when an exchange's caller-side query buffer
-    was modified or the query seen by the server differed from the caller's beyond the ID -/
 def run (case impl : String) : String × String :=
   let toks := words case
   match kvNat toks "pre", (kvChars toks "ops").bind (fun cs => (splitC ',' cs).mapM opOfChars) with
